@@ -16,7 +16,9 @@ from mc.loop import execute
 
 from streamflow.core.deployment import Connector, ExecutionLocation
 from streamflow.core.scheduling import AvailableLocation
-from streamflow.deployment.connector.queue_manager import SlurmConnector
+from streamflow.deployment.connector.queue_manager import FluxConnector, PBSConnector, SlurmConnector
+
+CONNECTORS = {"slurm": SlurmConnector, "pbs": PBSConnector, "flux": FluxConnector}
 
 PROP = "C27"
 
@@ -130,7 +132,68 @@ class FakeSlurmHost(Connector):
             if self.gated:
                 await fakes.gate("cmd:scancel")
             return None
+        # ---- PBS dialect ---------------------------------------------------------------------
+        if "qsub" in cmd:
+            jid = self._submit()
+            if self.gated:
+                await fakes.gate(f"cmd:sbatch:{jid}")
+            return (jid + "\n", 0)
+        if cmd.startswith("qstat"):
+            asked = [x for x in cmd.split()[1:] if not x.startswith("-")]
+            alive = [j for j in asked if self.queue.get(j) == "RUNNING"]
+            self.log.append(("squeue", tuple(asked), tuple(alive)))
+            reply = {"Jobs": {j: {"job_state": "R" if self.queue[j] == "RUNNING" else "F", "Output_Path": f"h0:/out/{j}",
+                                  "Exit_status": int(j) % 3} for j in asked if j in self.queue}}
+            if self.gated:
+                await fakes.gate("cmd:squeue" if len(asked) != 1 else f"cmd:qstat:{asked[0]}")
+            import json as _json
+
+            return (_json.dumps(reply) + "\n", 0)
+        if cmd.startswith("qdel"):
+            return await self._cancel(cmd.split()[1:])
+        # ---- Flux dialect --------------------------------------------------------------------
+        if "flux batch" in cmd:
+            jid = self._submit()
+            if self.gated:
+                await fakes.gate(f"cmd:sbatch:{jid}")
+            return (jid + "\n", 0)
+        if cmd.startswith("flux jobs") and "--filter=pending,running" in cmd:
+            alive = [j for j, st in self.queue.items() if st == "RUNNING"]
+            self.log.append(("squeue", ("*",), tuple(alive)))
+            if self.gated:
+                await fakes.gate("cmd:squeue")
+            return ("\n".join(alive) + ("\n" if alive else ""), 0)
+        if cmd.startswith("flux jobs") and "{returncode}" in cmd:
+            jid = cmd.split()[-1]
+            if self.gated:
+                await fakes.gate(f"cmd:scontrol:{jid}")
+            return (f"{int(jid) % 3}\n", 0)
+        if cmd.startswith("flux job attach"):
+            jid = cmd.split()[-1]
+            if self.gated:
+                await fakes.gate(f"cmd:attach:{jid}")
+            return (f"/out/{jid}\n", 0)
+        if cmd.startswith("flux job cancel"):
+            return await self._cancel(cmd.split()[3:])
         return ("", 0) if capture_output else None
+
+    def _submit(self):
+        jid = str(self.next_id)
+        self.next_id += 1
+        self.queue[jid] = "RUNNING"
+        self.log.append(("submit", jid))
+        fakes.log_event(("submit", jid))
+        self.finish_tasks.append(asyncio.create_task(self._finisher(jid), name=f"finisher{jid}"))
+        return jid
+
+    async def _cancel(self, ids):
+        self.log.append(("cancel", tuple(ids)))
+        for j in ids:
+            if self.queue.get(j) == "RUNNING":
+                self.queue[j] = "CANCELLED"
+        if self.gated:
+            await fakes.gate("cmd:scancel")
+        return None
 
     async def deploy(self, external):
         pass
@@ -164,10 +227,11 @@ class FakeSlurmHost(Connector):
 async def _main(loop, params, res):
     loop.mute = True
     host = FakeSlurmHost(gated=True)
-    conn = SlurmConnector("slurm", "/", connector=host, service=None, maxConcurrentJobs=8,
-                          pollingInterval=params.get("poll", 5))
+    dialect = params.get("dialect", "slurm")
+    conn = CONNECTORS[dialect](dialect, "/", connector=host, service=None, maxConcurrentJobs=8,
+                               pollingInterval=params.get("poll", 5), services={"svc": {}} if dialect == "pbs" else None)
     conn._jobs_cache = VirtualTTLCache(conn.pollingInterval)
-    locs = await conn.get_available_locations()
+    locs = await conn.get_available_locations(service="svc" if dialect == "pbs" else None)
     loc = next(iter(locs.values())).location
     n = params["jobs"]
     results = [None] * n
@@ -215,7 +279,8 @@ async def _main(loop, params, res):
 
 
 def judge(params, ex, res):
-    base = f"C27|jobs={params['jobs']}|undeploy={bool(params.get('undeploy'))}|poll={params.get('poll', 5)}"
+    base = (f"C27|jobs={params['jobs']}|undeploy={bool(params.get('undeploy'))}|poll={params.get('poll', 5)}" +
+            (f"|{params['dialect']}" if params.get("dialect", "slurm") != "slurm" else ""))
     if ex.error:
         return [(base + "|harness", f"{ex.error}")]
     if ex.hang:
@@ -279,6 +344,12 @@ def cases_for(tier):
             out.append({"jobs": n, "poll": poll, "idle_only": True, "bound": (3 if n <= 2 else 2) if q else (4 if n <= 2 else 3)})
         out.append({"jobs": n, "poll": 5, "undeploy": True, "bound": 1})
         out.append({"jobs": n, "poll": 5, "undeploy": True, "idle_only": True, "bound": 2 if q else 3})
+    # the PBS and Flux dialects share run()/undeploy() with Slurm and differ in how they read the queue
+    for d in ("pbs", "flux"):
+        for n in ((1, 2) if q else (1, 2, 3)):
+            out.append({"jobs": n, "poll": 5, "dialect": d, "bound": 1 if q else 2})
+            out.append({"jobs": n, "poll": 1, "dialect": d, "idle_only": True, "bound": 2 if q else 3})
+            out.append({"jobs": n, "poll": 5, "undeploy": True, "dialect": d, "idle_only": True, "bound": 2 if q else 3})
     if not q:
         out.append({"jobs": 4, "poll": 5, "idle_only": True, "bound": 2})
     else:
